@@ -126,6 +126,55 @@ Example crop_to_zero_extra_loop :
      = Ok (9 # 2).
 Proof. split; vm_compute; reflexivity. Qed.
 
+(* ---------------- the repaired variants on the same inputs ---------------- *)
+Definition lq_cropped_v (ix hw tz : bool) :=
+  path_cropped_v NumQ lq_crop lq_eq (np_atol NumQ) (np_rtol NumQ) ix hw tz.
+(* ix: indices from T2t — the crop of the twice-traversed path has its five pieces, length 7/2 *)
+Example fixed_duplicate_segment :
+  res_map shape_of (lq_cropped_v true false false twice (qc 2 15) (qc 43 60) (Ok (0%Z, qc 4 5)) (Ok (4%Z, qc 3 10)) (Ok true))
+  = Ok [(false, 0%nat, 4 # 5, 1 # 1); (true, 1%nat, 0 # 1, 1 # 1); (true, 2%nat, 0 # 1, 1 # 1);
+        (true, 3%nat, 0 # 1, 1 # 1); (false, 4%nat, 0 # 1, 3 # 10)]
+  /\ res_map total_len (lq_cropped_v true false false twice (qc 2 15) (qc 43 60) (Ok (0%Z, qc 4 5)) (Ok (4%Z, qc 3 10)) (Ok true))
+     = Ok (7 # 2).
+Proof. split; vm_compute; reflexivity. Qed.
+(* hw: no wrap around the end of an open path: the tiny last piece, length 3 * 2^-22 *)
+Example fixed_handover_wraps :
+  res_map shape_of (lq_cropped_v false true false stairs T_near1 (qc 1 1) (Ok (2%Z, t_near1)) (Ok (2%Z, qc 1 1)) (Ok false))
+  = Ok [(false, 2%nat, 4194301 # 4194304, 1 # 1)]
+  /\ res_map total_len (lq_cropped_v false true false stairs T_near1 (qc 1 1) (Ok (2%Z, t_near1)) (Ok (2%Z, qc 1 1)) (Ok false))
+     = Ok (3 # 4194304).
+Proof. split; vm_compute; reflexivity. Qed.
+(* hw: both ends within tolerance of one joint: the two tiny pieces, in order, joined *)
+Example fixed_across_joint :
+  let r := lq_cropped_v false true false stairs (qc 1 3 - eps40)%Qc (qc 1 3 + eps40)%Qc
+                        (Ok (0%Z, (Q2Qc 1 - Q2Qc 3 * eps40)%Qc)) (Ok (1%Z, (Q2Qc 3 * eps40)%Qc)) (Ok false) in
+  res_map shape_of r = Ok [(false, 0%nat, 1099511627773 # 1099511627776, 1 # 1);
+                           (false, 1%nat, 0 # 1, 3 # 1099511627776)]
+  /\ res_map (fun ps => match piece_segs ps with
+                        | [a; b] => ceqb NumQ (lq_pt a (Q2Qc 1)) (lq_pt b (Q2Qc 0))
+                        | _ => false end) r = Ok true.
+Proof. split; vm_compute; reflexivity. Qed.
+Example fixed_tiny_prefix :
+  res_map shape_of (lq_cropped_v false true false stairs (qc 0 1) eps40 (Ok (0%Z, qc 0 1)) (Ok (0%Z, (Q2Qc 3 * eps40)%Qc)) (Ok false))
+  = Ok [(false, 0%nat, 0 # 1, 3 # 1099511627776)].
+Proof. vm_compute; reflexivity. Qed.
+(* tz (and hw alone as well): cropped(7/8, 0) of the closed square is the last half of segment 3 *)
+Example fixed_to_zero :
+  res_map shape_of (lq_cropped_v false false true square (qc 7 8) (qc 0 1) (Ok (3%Z, qc 1 2)) (Ok (0%Z, qc 0 1)) (Ok true))
+  = Ok [(false, 3%nat, 1 # 2, 1 # 1)]
+  /\ res_map total_len (lq_cropped_v false false true square (qc 7 8) (qc 0 1) (Ok (3%Z, qc 1 2)) (Ok (0%Z, qc 0 1)) (Ok true))
+     = Ok (1 # 2)
+  /\ res_map shape_of (lq_cropped_v false true false square (qc 7 8) (qc 0 1) (Ok (3%Z, qc 1 2)) (Ok (0%Z, qc 0 1)) (Ok true))
+     = Ok [(false, 3%nat, 1 # 2, 1 # 1)].
+Proof. repeat split; vm_compute; reflexivity. Qed.
+(* the repaired variants leave ordinary crops unchanged *)
+Example fixed_ordinary_unchanged :
+  lq_cropped_v true true true square (qc 1 8) (qc 7 8) (Ok (0%Z, qc 1 2)) (Ok (3%Z, qc 1 2)) (Ok true)
+  = lq_cropped square (qc 1 8) (qc 7 8) (Ok (0%Z, qc 1 2)) (Ok (3%Z, qc 1 2)) (Ok true)
+  /\ lq_cropped_v true true true square (qc 7 8) (qc 1 8) (Ok (3%Z, qc 1 2)) (Ok (0%Z, qc 1 2)) (Ok true)
+     = lq_cropped square (qc 7 8) (qc 1 8) (Ok (3%Z, qc 1 2)) (Ok (0%Z, qc 1 2)) (Ok true).
+Proof. split; vm_compute; reflexivity. Qed.
+
 (* ---------------- the contracts used in CropPath.v hold for this instance ---------------- *)
 Lemma lq_crop_ends : forall s a b s', lq_crop s a b = Ok s' ->
   lq_pt s' (zero NumQ) = lq_pt s a /\ lq_pt s' (one NumQ) = lq_pt s b.
